@@ -15,6 +15,7 @@ Exit codes of a check: 0 held, 1 violation (VIOLATION line printed), 2 harness/b
 """
 import hashlib
 import ctypes
+import gc
 import json
 import mmap
 import os
@@ -110,6 +111,7 @@ def _worker_loop(mod, seed, tier, w, nworkers, start, stop_at, max_index, wfd, j
             res["index"] = i
             if res.get("viols") or i < 3 * nworkers:
                 res["case"] = case
+            gc.collect()        # simulations caught in reference cycles would otherwise pile up across the runs of a worker (thousands of guard-page mappings)
         except BaseException as e:  # harness exception: reported apart from violations
             if isinstance(e, (KeyboardInterrupt, SystemExit)):
                 raise
